@@ -1012,7 +1012,19 @@ pub fn run_random(out: &mut Out, seed: u64, n: u64, kinds: &[&str], mix: &str) {
                         .raw("instrs", &crate::cpu::instrs_json(&ins)),
                 );
                 if let Some(Ok(mut m)) = made {
-                    run_behaviour(&mut m, &st, &mut r, len, out, mix);
+                    if r.chance(1, 3) {
+                        // the unchecked constructor with a reference to the same level-4 table at
+                        // another address (here: its place in the arena): the mapper must reach the
+                        // lower tables through the recursive index it was given
+                        drop(m);
+                        let mut m2 = unsafe {
+                            RecursivePageTable::new_unchecked(&mut *rootp, x86_64::structures::paging::PageTableIndex::new(st.rix as u16))
+                        };
+                        out.emit(Ev::new("accessors").str("kind", "recursive").words("want", &[rootp as u64, 0, 0]).words("got", &[m2.level_4_table() as *const PageTable as u64, 0, 0]));
+                        run_behaviour(&mut m2, &st, &mut r, len, out, mix);
+                    } else {
+                        run_behaviour(&mut m, &st, &mut r, len, out, mix);
+                    }
                 }
             }
             _ => {}
